@@ -22,6 +22,9 @@ func (g *gen) operand(steps *[]string, nv *int, dt string, sh []int, layout stri
 	if size(sh) == 1 && !strings.HasPrefix(layout, "col") {
 		layout = "contig" // one-cell views become scalars (finding F25); keep them out of this matrix
 	}
+	if size(sh) == 1 && (layout == "colsliced" || layout == "colstepped") {
+		layout = "colmajor"
+	}
 	switch layout {
 	case "lazyT":
 		if len(sh) < 2 {
@@ -75,6 +78,29 @@ func (g *gen) operand(steps *[]string, nv *int, dt string, sh []int, layout stri
 			}
 		}
 		add(fmt.Sprintf("new %s %s C", dt, ints(big)))
+		p := *nv
+		*nv++
+		add(fmt.Sprintf("slice $%d %s", p, strings.Join(spec, ",")))
+		v := *nv
+		*nv++
+		return v
+	case "colsliced", "colstepped": // a view with gaps of a column-major parent
+		big := make([]int, len(sh))
+		spec := make([]string, len(sh))
+		for i, d := range sh {
+			switch {
+			case d == 1:
+				big[i] = 1
+				spec[i] = "n"
+			case layout == "colsliced":
+				big[i] = d + 1
+				spec[i] = fmt.Sprintf("1:%d", d+1)
+			default:
+				big[i] = 2 * d
+				spec[i] = fmt.Sprintf("0:%d:2", 2*d)
+			}
+		}
+		add(fmt.Sprintf("new %s %s Fraw", dt, ints(big)))
 		p := *nv
 		*nv++
 		add(fmt.Sprintf("slice $%d %s", p, strings.Join(spec, ",")))
@@ -433,6 +459,7 @@ func genC07(g *gen) {
 		}
 	}
 	g.scalarTensorMatrix([]string{"lt", "gte"}, []string{"f64", "i32", "u8", "i64"}, []string{"same", "unsafe", "reuse-same"})
+	g.aliasDestMatrix()
 	for _, op := range []string{"minb", "maxb"} {
 		for _, mode := range []string{"safe", "unsafe", "reuse", "reuse=a", "reuse=b", "unsafe-reuse"} {
 			for _, kind := range []string{"TT", "TS", "ST"} {
@@ -586,6 +613,50 @@ func genC12(g *gen) {
 					g.emit(steps...)
 				}
 			}
+		}
+	}
+}
+
+// aliasDestMatrix: the destination (reuse / increment tensor) addresses an operand's own cells through another access
+// pattern: a shallow clone with a pending transpose (same window, same shape for a square matrix, other strides), an
+// overlapping window of the same parent, the transposed alias of the second operand. The delivered values must be the
+// safe-mode values; only the destination (and what shares its cells) may change.
+func (g *gen) aliasDestMatrix() {
+	for _, dt := range []string{"f64", "i32", "u8"} {
+		for _, op := range []string{"add", "sub", "mul"} {
+			for _, mode := range []string{"reuse", "incr"} {
+				for _, via := range []string{"fn", "meth"} {
+					if !g.thorough() && (len(dt)+len(op)+len(mode)+len(via))%2 == 1 {
+						continue
+					}
+					for _, n := range []int{2, 3} {
+						sq := fmt.Sprintf("%d,%d", n, n)
+						// the transposed alias of the first / second operand, tensor-tensor and tensor-scalar
+						g.emit("vset=1", fmt.Sprintf("new %s %s C", dt, sq), fmt.Sprintf("new %s %s C", dt, sq), "shallow $0", "T $2 -",
+							fmt.Sprintf("bin %s %s $0 $1 %s=$2", op, via, mode), "dump $2", "dump $1", "dump $0")
+						g.emit("vset=1", fmt.Sprintf("new %s %s C", dt, sq), fmt.Sprintf("new %s %s C", dt, sq), "shallow $1", "T $2 -",
+							fmt.Sprintf("bin %s %s $0 $1 %s=$2", op, via, mode), "dump $2", "dump $0", "dump $1")
+						g.emit("vset=1", fmt.Sprintf("new %s %s C", dt, sq), "shallow $0", "T $1 -",
+							fmt.Sprintf("bin %s %s $0 #k3 %s=$1", op, via, mode), "dump $1", "dump $0")
+						g.emit("vset=1", fmt.Sprintf("new %s %s C", dt, sq), "shallow $0", "T $1 -",
+							fmt.Sprintf("bin %s %s #k3 $0 %s=$1", op, via, mode), "dump $1", "dump $0")
+						// both operands are the same tensor, the destination its transposed alias
+						g.emit("vset=1", fmt.Sprintf("new %s %s C", dt, sq), "shallow $0", "T $1 -",
+							fmt.Sprintf("bin %s %s $0 $0 %s=$1", op, via, mode), "dump $1", "dump $0")
+					}
+					// overlapping windows of one parent: operand rows 0..1, destination rows 1..2
+					g.emit("vset=1", fmt.Sprintf("new %s 3,2 C", dt), "slice $0 0:2,n", "slice $0 1:3,n", fmt.Sprintf("new %s 2,2 C", dt),
+						fmt.Sprintf("bin %s %s $1 $3 %s=$2", op, via, mode), "dump $2", "dump $0", "dump $3")
+					g.emit("vset=1", fmt.Sprintf("new %s 3,2 C", dt), "slice $0 0:2,n", "slice $0 1:3,n", fmt.Sprintf("new %s 2,2 C", dt),
+						fmt.Sprintf("bin %s %s $3 $1 %s=$2", op, via, mode), "dump $2", "dump $0", "dump $3")
+				}
+			}
+		}
+	}
+	// unary operations with the transposed alias as destination
+	for _, op := range []string{"neg", "square", "abs"} {
+		for _, mode := range []string{"reuse", "incr"} {
+			g.emit("vset=1", "new f64 3,3 C", "shallow $0", "T $1 -", fmt.Sprintf("un %s $0 %s=$1", op, mode), "dump $1", "dump $0")
 		}
 	}
 }
